@@ -367,7 +367,7 @@ impl vstd::std_specs::convert::TryFromSpecImpl<&TExpr> for u32 {
         &&& (b.left == left && left.ty == t) || is_cast_to(b.left, left, t)
         &&& (b.right == right && right.ty == t) || is_cast_to(b.right, right, t)
         &&& arith_common(op->ArithOp_0, left.ty, right.ty, t)
-    }),                                                                                       //@C08:arith-operands-cast-to-common-type
+    }),                                                                                       //@C08,C06:arith-operands-cast-to-common-type-in-order
     !(op is ArithOp) ==> r.expression->BinaryExpr_0.left == left && r.expression->BinaryExpr_0.right == right,'''),
         'TryFrom<&TExpr> for u32::try_from': dict(props=['C09'], ret='r', d8=True, spec='''ensures
     // only a cast of a non-negative integer literal that fits u32 is a designator value
@@ -385,7 +385,7 @@ impl vstd::std_specs::convert::TryFromSpecImpl<&TExpr> for u32 {
     U.raw('''use types::{ArrayDims, IsConst, Type};
 use context::Context;
 use semantic_error::SemanticErrorKind::{self, *};
-use symbols::{ScopeType, SymbolIdResult, SymbolTable};
+use symbols::{ScopeType, SymbolIdResult, SymbolTable, SymbolError, SymbolId};
 use synast::{HasArgList, HasName, HasTextNode};
 pub mod oq3_syntax { pub use crate::synast::BlockOrStmt; pub mod ast { pub use crate::synast::*; } }
 /// crate::utils::type_name_of (std::any::type_name; only used inside a panic message)
@@ -566,7 +566,7 @@ ensures
     r->Some_0->GateCall_0.modifiers == modifiers,                                                                     //@C06:modifiers-kept
     // reported iff the number of parameters / qubits differs from the definition; non-gate callee reported
     exists|mid: Context| gate_call_post(*old(context), mid, *final(context), gate_call_expr.sp_identifier()->Some_0.sp_string(),
-        r->Some_0->GateCall_0.name, opt_len(r->Some_0->GateCall_0.params), r->Some_0->GateCall_0.qubits@.len()),   //@C13:gate-call-arity-iff
+        r->Some_0->GateCall_0.name, opt_len(r->Some_0->GateCall_0.params), r->Some_0->GateCall_0.qubits@.len()),   //@C13,C07:gate-call-resolves-and-arity-iff
 '''))
     zov['gate_call_expr_to_asg_stmt']['ghost'] = [
         ('let gate_id = gate_call_expr.identifier();', 'before', 'let ghost mid = *context;'),
@@ -574,7 +574,7 @@ ensures
     let name = gate_call_expr.sp_identifier()->Some_0.sp_string();
     assert(gate_name@ == name);
     assert(num_params == opt_len(param_list));
-    assert(gate_call_post(*old(context), mid, *context, name, symbol_result, opt_len(param_list), gate_operands@.len()));     //@C13:gate-call-arity-iff
+    assert(gate_call_post(*old(context), mid, *context, name, symbol_result, opt_len(param_list), gate_operands@.len()));     //@C13,C07:gate-call-resolves-and-arity-iff
 }'''),
     ]
     zov.setdefault('declare_classical_helper', {}).update(dict(ret='r', props=['C08', 'C03'], spec='''
